@@ -92,6 +92,8 @@ type pathRun struct {
 	merrMsg  map[*value]string
 	observing bool
 	fitsTab  map[*smt.Term]*big.Int
+	proofs   map[*smt.Term]*proofRec
+	lowerTab map[*smt.Term]*big.Int
 	unchecked bool
 	encTab   map[*smt.Term]geGhost
 	canonMemo map[[2]int]*smt.Term
@@ -283,6 +285,7 @@ func (p *pathRun) assume(label string, cond *smt.Term) {
 	if cond.IsFalse() {
 		p.finish("pruned", "assume "+label)
 	}
+	p.learnBounds(cond)
 	pos := len(p.trail)
 	if pos < len(p.prefix) {
 		// feasibility was established when this prefix was created
@@ -295,6 +298,130 @@ func (p *pathRun) assume(label string, cond *smt.Term) {
 	p.addPC(cond)
 	p.unchecked = true
 	p.trail = append(p.trail, true)
+}
+
+// genericCoins: in harnesses of all-honest runs (Summarise("generic-coins")) an event that
+// needs honest coins to hit a measure-zero relation (a sum ≡ 0, a point at infinity) is
+// assumed away instead of forked; each use is counted in the evidence. Returns true when
+// the event was excluded.
+func (p *pathRun) genericCoins(event *smt.Term, label string) bool {
+	if !p.summ["generic-coins"] || event.IsConst() {
+		return false
+	}
+	p.res.Assumes["coin:"+label]++
+	p.addPC(p.ctx.Not(event))
+	p.unchecked = true
+	return true
+}
+
+// searchModel looks for a model of pc ∧ extra by pinning all but one of the integer inputs
+// to small distinct values (a few rounds with different choices).
+func (p *pathRun) searchModel(extra *smt.Term) (map[string]*big.Int, bool) {
+	c := p.ctx
+	var vars []*smt.Term
+	for _, nd := range p.nondets {
+		if nd.t.Op == "var" && nd.t.Sort.K == smt.KInt {
+			if lo := p.lowerTab[nd.t]; lo != nil && lo.BitLen() > 16 {
+				continue // inputs assumed large (moduli) stay free
+			}
+			vars = append(vars, nd.t)
+		}
+	}
+	if len(vars) == 0 {
+		return nil, false
+	}
+	small := []int64{1, 2, 3, 5, 7, 11, 13, 17, 19, 23, 29, 31, 37, 41, 43, 47, 53, 59, 61, 67}
+	// the large prime moduli seen on this path (group orders): values just below them are the
+	// other family of pins (boundary values q-1, q-2, ...)
+	var order *big.Int
+	for k := range p.canonMemo {
+		_ = k
+	}
+	for _, t := range p.pc {
+		if order != nil {
+			break
+		}
+		var walk func(t *smt.Term, d int)
+		walk = func(t *smt.Term, d int) {
+			if order != nil || d > 6 {
+				return
+			}
+			if t.Op == "mod" && t.Args[1].IsConst() && t.Args[1].Val.BitLen() > 200 && p.eng.knownPrime(t.Args[1].Val) {
+				order = t.Args[1].Val
+				return
+			}
+			for _, a := range t.Args {
+				walk(a, d+1)
+			}
+		}
+		walk(t, 0)
+	}
+	rounds := 6
+	if order != nil {
+		rounds = 12
+	}
+	for round := 0; round < rounds; round++ {
+		free := round % len(vars)
+		var pins []*smt.Term
+		for i, v := range vars {
+			if i == free {
+				continue
+			}
+			val := big.NewInt(small[(i*3+round*7)%len(small)] + int64(round*71))
+			if round >= 6 {
+				val = new(big.Int).Sub(order, val)
+			}
+			pins = append(pins, c.Eq(v, c.IntC(val)))
+		}
+		q := c.And(append(pins, extra)...)
+		r, m, _ := p.query(q, 4000, true)
+		if r == smt.Sat {
+			return m, true
+		}
+	}
+	return nil, false
+}
+
+// learnBounds records numeral bounds of assumed conditions on terms (so that later
+// domain checks against them are closed syntactically instead of by a solver call).
+func (p *pathRun) learnBounds(cond *smt.Term) {
+	switch cond.Op {
+	case "and":
+		for _, a := range cond.Args {
+			p.learnBounds(a)
+		}
+	case "<":
+		if cond.Args[1].IsConst() {
+			p.noteFits(cond.Args[0], cond.Args[1].Val)
+		}
+		if cond.Args[0].IsConst() {
+			p.noteLower(cond.Args[1], new(big.Int).Add(cond.Args[0].Val, big.NewInt(1)))
+		}
+	case "<=":
+		if cond.Args[1].IsConst() {
+			p.noteFits(cond.Args[0], new(big.Int).Add(cond.Args[1].Val, big.NewInt(1)))
+		}
+		if cond.Args[0].IsConst() {
+			p.noteLower(cond.Args[1], cond.Args[0].Val)
+		}
+	case ">=":
+		if cond.Args[1].IsConst() {
+			p.noteLower(cond.Args[0], cond.Args[1].Val)
+		}
+	case ">":
+		if cond.Args[1].IsConst() {
+			p.noteLower(cond.Args[0], new(big.Int).Add(cond.Args[1].Val, big.NewInt(1)))
+		}
+	}
+}
+
+func (p *pathRun) noteLower(t *smt.Term, lo *big.Int) {
+	if p.lowerTab == nil {
+		p.lowerTab = map[*smt.Term]*big.Int{}
+	}
+	if old := p.lowerTab[t]; old == nil || old.Cmp(lo) < 0 {
+		p.lowerTab[t] = lo
+	}
 }
 
 // checkFeasible settles a pending feasibility question (after lazy assumptions).
@@ -364,6 +491,15 @@ func (p *pathRun) assert(fr *frame, label string, cond *smt.Term) {
 	default:
 		ob.Status = "inconclusive"
 		ob.Diag = "solver: " + d + fmt.Sprintf(" after %v", time.Since(t0).Round(time.Millisecond))
+		// the solver could not decide the non-linear query: look for a counterexample with
+		// most integer inputs pinned (the remaining query is easy); a hit is a genuine model
+		// of the same constraints and is replayed natively like any other
+		if m2, ok := p.searchModel(p.ctx.Not(cond)); ok {
+			ob.Status = "violated"
+			ob.Diag += "; counterexample found after partial concretisation"
+			ob.Model = p.modelStrings(m2)
+			r = smt.Sat
+		}
 	}
 	p.res.Obligations = append(p.res.Obligations, ob)
 	// continue under the asserted condition so later obligations are independent
